@@ -179,6 +179,12 @@ COMPOUND = [
     S("if-yield-test", "if (yield E({e1}, {p})):", bodies=1, gen=True, special=True),
     S("with-yield-item", "with CM((yield E({e1}, {p}))) as {n1}:", bodies=1, gen=True, special=True),
 ]
+# thorough tier: programs of three nodes are enumerated over this core menu (the full menu at three nodes
+# is ~470 000 programs, hours per property); the full menu is enumerated at two nodes
+CORE3 = frozenset({"assign", "chain", "aug", "unpack-tuple", "unpack-star", "attr", "sub", "walrus", "import", "def",
+                   "lambda", "listcomp", "class", "global-write", "closure-read", "return", "raise", "yield",
+                   "yield-recv", "if", "if-else", "for", "for-else", "while", "try-except", "try-finally", "with",
+                   "break", "continue", "del"})
 # the `odd` program set: every program contains at least one of ODD, the rest comes from ODD_BASE
 ODD = frozenset({"none-global-read", "weird-eq", "return-yield", "arg-yield", "assert-yield", "sub-index-yield",
                  "default-yield", "ann-yield", "attr-yield", "for-list-target", "with-list-target", "for-yield-iter",
